@@ -891,16 +891,19 @@ void TasmanianSparseGrid::setAnisotropicRefinement(TypeDepth type, int min_growt
     if ((output < -1) || (output >= outs)) throw std::invalid_argument("ERROR: calling setAnisotropicRefinement() with invalid output");
     if ((!level_limits.empty()) && (level_limits.size() != (size_t) dims)) throw std::invalid_argument("ERROR: setAnisotropicRefinement() requires level_limits with either 0 or dimenions entries");
 
-    if (!level_limits.empty()) llimits = level_limits;
+    // the new level limits are stored only when the call is accepted
     if (isSequence()){
+        if (!level_limits.empty()) llimits = level_limits;
         get<GridSequence>()->setAnisotropicRefinement(type, min_growth, output, llimits);
     }else if (isGlobal()){
         if (OneDimensionalMeta::isNonNested(get<GridGlobal>()->getRule())){
             throw std::runtime_error("ERROR: setAnisotropicRefinement() called for a global grid with non-nested rule");
         }else{
+            if (!level_limits.empty()) llimits = level_limits;
             get<GridGlobal>()->setAnisotropicRefinement(type, min_growth, output, llimits);
         }
     }else if (isFourier()){
+        if (!level_limits.empty()) llimits = level_limits;
         get<GridFourier>()->setAnisotropicRefinement(type, min_growth, output, llimits);
     }else{
         throw std::runtime_error("ERROR: setAnisotropicRefinement() called for a grid that is neither Sequence, nor Global with a sequence rule, nor Fourier");
@@ -944,11 +947,13 @@ void TasmanianSparseGrid::setSurplusRefinement(double tolerance, int output, con
     if (tolerance < 0.0) throw std::invalid_argument("ERROR: calling setSurplusRefinement() with invalid tolerance (must be non-negative)");
     if ((!level_limits.empty()) && (level_limits.size() != (size_t) dims)) throw std::invalid_argument("ERROR: setSurplusRefinement() requires level_limits with either 0 or dimenions entries");
 
-    if (!level_limits.empty()) llimits = level_limits;
+    // the new level limits are stored only when the call is accepted
     if (isSequence()){
+        if (!level_limits.empty()) llimits = level_limits;
         get<GridSequence>()->setSurplusRefinement(tolerance, output, llimits);
     }else if (isGlobal()){
         if (OneDimensionalMeta::isSequence(get<GridGlobal>()->getRule())){
+            if (!level_limits.empty()) llimits = level_limits;
             get<GridGlobal>()->setSurplusRefinement(tolerance, output, llimits);
         }else{
             throw std::runtime_error("ERROR: setSurplusRefinement called for a Global grid with non-sequence rule");
@@ -970,15 +975,14 @@ void TasmanianSparseGrid::setSurplusRefinement(double tolerance, TypeRefinement 
         throw std::runtime_error("ERROR: setSurplusRefinement(double, TypeRefinement) called for a Fourier grid.");
     if (tolerance < 0.0) throw std::invalid_argument("ERROR: calling setSurplusRefinement() with invalid tolerance (must be non-negative)");
 
-    if (level_limits != 0) // can only happen if calling directly with int*, the vector version always passes null for level_limits
-        llimits = Utils::copyArray(level_limits, dims); // if level_limits is null, we want to keep llimits unchanged
-
     if (isLocalPolynomial()){
+        if (level_limits != 0) llimits = Utils::copyArray(level_limits, dims); // if level_limits is null, we want to keep llimits unchanged
         get<GridLocalPolynomial>()->setSurplusRefinement(tolerance, criteria, output, llimits, scale_correction);
     }else if (isWavelet()){
+        if (level_limits != 0) llimits = Utils::copyArray(level_limits, dims);
         get<GridWavelet>()->setSurplusRefinement(tolerance, criteria, output, llimits);
-    }else{
-        setSurplusRefinement(tolerance, output, std::vector<int>()); // new level limits are already set above
+    }else{ // the new level limits are stored by the call below, if it accepts the grid
+        setSurplusRefinement(tolerance, output, (level_limits != 0) ? Utils::copyArray(level_limits, dims) : std::vector<int>());
     }
 }
 void TasmanianSparseGrid::setSurplusRefinement(double tolerance, TypeRefinement criteria, int output, const std::vector<int> &level_limits, const std::vector<double> &scale_correction){
@@ -989,8 +993,8 @@ void TasmanianSparseGrid::setSurplusRefinement(double tolerance, TypeRefinement 
     if ((!level_limits.empty()) && (level_limits.size() != (size_t) dims)) throw std::invalid_argument("ERROR: setSurplusRefinement() requires level_limits with either 0 or dimenions entries");
     if ((!scale_correction.empty()) && (scale_correction.size() != nscale)) throw std::invalid_argument("ERROR: setSurplusRefinement() incorrect size for scale_correction");
 
-    if (!level_limits.empty()) llimits = level_limits;
-    setSurplusRefinement(tolerance, criteria, output, nullptr, (scale_correction.empty()) ? nullptr : scale_correction.data());
+    // the limits are stored by the call below after it has checked its arguments, a rejected call must not replace them
+    setSurplusRefinement(tolerance, criteria, output, (level_limits.empty()) ? nullptr : level_limits.data(), (scale_correction.empty()) ? nullptr : scale_correction.data());
 }
 
 void TasmanianSparseGrid::clearRefinement(){
